@@ -95,14 +95,14 @@ func (f *MakeArray) Call(s *slip.Scope, args slip.List, depth int) slip.Object {
 		dims = []int{int(ta)}
 	case slip.List:
 		for _, v := range ta {
-			if num, _ := v.(slip.Fixnum); 0 < num {
+			if num, ok := v.(slip.Fixnum); ok && 0 <= num {
 				dims = append(dims, int(num))
 			} else {
-				slip.TypePanic(s, depth, "dimensions", args[0], "list of positive fixnums")
+				slip.TypePanic(s, depth, "dimensions", args[0], "list of non-negative fixnums")
 			}
 		}
 	default:
-		slip.TypePanic(s, depth, "dimensions", ta, "fixnum", "list of positive fixnums")
+		slip.TypePanic(s, depth, "dimensions", ta, "fixnum", "list of non-negative fixnums")
 	}
 	rest := args[1:]
 	if option, has := slip.GetArgsKeyValue(rest, slip.Symbol(":element-type")); has {
@@ -118,6 +118,9 @@ func (f *MakeArray) Call(s *slip.Scope, args slip.List, depth int) slip.Object {
 	if option, has := slip.GetArgsKeyValue(rest, slip.Symbol(":initial-contents")); has {
 		if list, ok := option.(slip.List); ok {
 			initContents = list
+		} else if option == nil {
+			// The empty list, the contents of an array with no elements.
+			initContents = slip.List{}
 		} else {
 			slip.TypePanic(s, depth, ":initial-contents", option, "list")
 		}
